@@ -1130,3 +1130,128 @@ def native_problem(v, w):
     if ok_validate(S, w) != strict:
         return "accepts a different value" if not strict else "rejects an equal value"
     return ""
+
+
+# --------------------------------------------------------------------------- C15: equality
+
+def eq_int(hv, x, hmn, mn, hmx, mx):
+    s = schema.int
+    if hv:
+        s = s(x)
+    if hmn:
+        s = s.min(mn)
+    if hmx:
+        s = s.max(mx)
+    return s
+
+
+def eq_float(hv, x, hmn, mn, hmx, mx, hp, p):
+    s = schema.float
+    if hv:
+        s = s(x)
+    if hmn:
+        s = s.min(mn)
+    if hmx:
+        s = s.max(mx)
+    if hp:
+        s = s.precision(p)
+    return s
+
+
+def eq_str(lf, n, m, ha, al, hs, sub):
+    s = schema.str
+    if lf == 1:
+        s = s.len(n)
+    elif lf == 2:
+        s = s.len(n, ...)
+    elif lf == 3:
+        s = s.len(..., m)
+    elif lf == 4:
+        s = s.len(n, m)
+    if ha:
+        s = s.alphabet(al)
+    if hs:
+        s = s.contains(sub)
+    return s
+
+
+def eq_dict(p, hb, ob, rel, typed):
+    if not typed:
+        return schema.dict
+    keys = {"a": schema.int.min(p)}
+    if hb:
+        keys[optional("b") if ob else "b"] = schema.none
+    if rel:
+        keys[...] = ...
+    return schema.dict(keys)
+
+
+def eq_list(form, p, hl, n):
+    e = schema.int.min(p)
+    if form == 0:
+        s = schema.list
+    elif form == 1:
+        s = schema.list(e)
+    elif form == 2:
+        s = schema.list([e])
+    elif form == 3:
+        s = schema.list([e, ...])
+    elif form == 4:
+        s = schema.list([..., e])
+    elif form == 5:
+        s = schema.list([..., e, ...])
+    elif form == 6:
+        s = schema.list([e, e])
+    elif form == 7:
+        s = schema.list([])
+    else:
+        raise IgnoreAttempt("form")
+    if hl:
+        s = s.len(n)
+    return s
+
+
+def eq_any(form, p):
+    a = schema.int.min(p)
+    if form == 0:
+        return schema.any
+    if form == 1:
+        return schema.any(a)
+    if form == 2:
+        return schema.any(a, schema.none)
+    if form == 3:
+        return schema.any(schema.none, a)
+    if form == 4:
+        return schema.any(a, schema.none, schema.str)
+    raise IgnoreAttempt("form")
+
+
+def eq_misc(i):
+    return pick((schema.none, schema.bool, schema.bool(True), schema.int, schema.float, schema.str, schema.bytes,
+                 schema.list, schema.dict, schema.any, schema.uuid4, schema.datetime, schema.date,
+                 schema.alias("T", schema.int), schema.alias("T", schema.any), schema.alias("U", schema.int)), i)
+
+
+def eq_pair_problem(a, b, v):
+    """Clauses of C15 that involve two schemas and a probe value."""
+    ab = (a == b)
+    if not isinstance(ab, bool):
+        return "== did not return a bool"
+    if ab != (b == a):
+        return "== is not symmetric"
+    if (a != b) != (not ab):
+        return "!= is not the negation of =="
+    if (b != a) != (not ab):
+        return "!= is not the negation of == (reversed)"
+    if not (a == a) or (a != a):
+        return "== is not reflexive"
+    if ab and ok_validate(a, v) != ok_validate(b, v):
+        return "equal schemas give different verdicts"
+    return ""
+
+
+def eq_value_problem(a, v):
+    va = ok_validate(a, v)
+    if (a == v) != va or (a != v) != (not va):
+        return "schema == value disagrees with validate"
+    return ""
